@@ -40,7 +40,7 @@ func inServerPkg(fn *ssa.Function) bool {
 // durability point.
 func ruleR2(c *Ctx, id string) {
 	V, P, R := c.V, c.P, c.R
-	R.Rule(id, "only fstxn.commitWait/CommitFh call the journal's durability points; both write the allocator bitmaps (PreCommit) before and run PostCommit after, on every path", 20)
+	R.Rule(id, "only fstxn.commitWait/CommitFh call the journal's durability points; both write the allocator bitmaps (PreCommit) before and run PostCommit after, on every path", 12)
 	dur := funcIs(V.JrnlCommitWait, V.LogFlush, V.LogCommitWait)
 	allowed := map[*ssa.Function]bool{V.commitWait: true, V.CommitFh: true}
 	for _, fn := range P.RepoFuncs() {
@@ -164,7 +164,7 @@ func waitConst(c *Ctx, f *ssa.Function, depth int) (bool, bool) {
 
 func ruleR3(c *Ctx, id string) {
 	V, P, R := c.V, c.P, c.R
-	R.Rule(id, "allocation bookkeeping: AllocNum only in AllocINum/AllocBlock with the result recorded unless null; the four lists have fixed writers; PreCommit writes all four lists with the matching bitmap and polarity; FreeNum only in PostCommit (free lists) and PostAbort (alloc lists)", 33)
+	R.Rule(id, "allocation bookkeeping: AllocNum only in AllocINum/AllocBlock with the result recorded unless null; the four lists have fixed writers; PreCommit writes all four lists with the matching bitmap and polarity; FreeNum only in PostCommit (free lists) and PostAbort (alloc lists)", 28)
 	lists := map[string]*ssa.Function{"allocInums": V.AllocINum, "allocBnums": V.AllocBlock, "freeInums": V.FreeINum, "freeBnums": V.FreeBlock}
 	allocBegin := P.Func("alloctxn.Begin")
 	// (a) who may call AllocNum / FreeNum
@@ -177,8 +177,8 @@ func ruleR3(c *Ctx, id string) {
 			R.Check(ok, id, FuncName(fn)+"|calls AllocNum", P.Pos(call.Pos()), "alloc.AllocNum is called only by AllocINum/AllocBlock (which record the number)", "recording wrapper", "an allocation that is not recorded in the transaction is never written to the bitmap nor returned on abort")
 		}
 		for _, call := range P.CallsIn(fn, funcIs(V.FreeNum)) {
-			ok := fn == V.PostCommit || fn == V.PostAbort
-			R.Check(ok, id, FuncName(fn)+"|calls FreeNum", P.Pos(call.Pos()), "alloc.FreeNum is called only by PostCommit/PostAbort", "commit/abort epilogue", "a number returned to the in-memory allocator before its transaction commits can be reused while the old owner is still on disk")
+			ok := actsFor(P, fn, funcIs(V.PostCommit, V.PostAbort), 0)
+			R.Check(ok, id, FuncName(ownerOf(fn))+"|calls FreeNum", P.Pos(call.Pos()), "alloc.FreeNum is called only by PostCommit/PostAbort", "commit/abort epilogue", "a number returned to the in-memory allocator before its transaction commits can be reused while the old owner is still on disk")
 		}
 	}
 	// (b) result recorded on every non-null path
@@ -300,18 +300,20 @@ func ruleR3(c *Ctx, id string) {
 			continue
 		}
 		got := map[exp]bool{}
-		for _, call := range P.CallsIn(f, funcIs(V.FreeNum)) {
-			_, af, _, _ := loadedField(recvOf(call))
-			_, lf, _, elem := loadedField(argN(call, 0))
-			e := exp{lf, af}
-			okPair := false
-			for _, w := range exps {
-				if w == e && elem {
-					okPair = true
+		for _, sc := range scopesOf(f) {
+			for _, call := range P.CallsIn(sc.Fn, funcIs(V.FreeNum)) {
+				_, af, _, _ := loadedFieldS(recvOf(call), sc.S)
+				_, lf, _, elem := loadedFieldS(argN(call, 0), sc.S)
+				e := exp{lf, af}
+				okPair := false
+				for _, w := range exps {
+					if w == e && elem {
+						okPair = true
+					}
 				}
+				got[e] = true
+				R.Check(okPair, id, fmt.Sprintf("%s|FreeNum(%s<-%s)", FuncName(f), af, lf), P.Pos(call.Pos()), "FreeNum is applied to elements of the matching list on the matching allocator", "matches the table", "wrong list or allocator: numbers are returned to the wrong pool or at the wrong event")
 			}
-			got[e] = true
-			R.Check(okPair, id, fmt.Sprintf("%s|FreeNum(%s<-%s)", FuncName(f), af, lf), P.Pos(call.Pos()), "FreeNum is applied to elements of the matching list on the matching allocator", "matches the table", "wrong list or allocator: numbers are returned to the wrong pool or at the wrong event")
 		}
 		for _, w := range exps {
 			if !got[w] {
@@ -351,27 +353,48 @@ func ruleWriteBits(c *Ctx, id string) {
 			okAddr = isBlk && elemOK
 		}
 		R.Check(okAddr, id, key+"bit address", P.Pos(call.Pos()), "the bit written is bit n of the bitmap starting at block blk (addr.MkBitAddr(blk, n))", "parameters passed through", "the bitmap bit written is not the bit of the number allocated/freed")
+		// the element of the ranged slice parameter
+		isElem := func(v ssa.Value) bool {
+			if u, ok := v.(*ssa.UnOp); ok && u.Op == token.MUL {
+				if ia, ok := u.X.(*ssa.IndexAddr); ok {
+					pm, isP := stripConv(ia.X).(*ssa.Parameter)
+					return isP && pm.Parent() == f
+				}
+			}
+			return false
+		}
 		okBit := false
-		for _, b := range f.Blocks {
-			for _, in := range b.Instrs {
-				if sh, ok := in.(*ssa.BinOp); ok && sh.Op == token.SHL {
-					one, is1 := constInt(stripConv(sh.X))
-					if rem, ok := stripConv(sh.Y).(*ssa.BinOp); ok && rem.Op == token.REM && is1 && one == 1 {
-						if k, isk := constInt(rem.Y); isk && k == 8 {
-							okBit = true
+		for _, sc := range scopesOf(f) {
+			for _, b := range sc.Fn.Blocks {
+				for _, in := range b.Instrs {
+					if sh, ok := in.(*ssa.BinOp); ok && sh.Op == token.SHL {
+						one, is1 := constInt(stripConv(sh.X))
+						if rem, ok := stripConv(sh.Y).(*ssa.BinOp); ok && rem.Op == token.REM && is1 && one == 1 {
+							if k, isk := constInt(rem.Y); isk && k == 8 && isElem(sc.S.resolve(rem.X)) {
+								okBit = true
+							}
 						}
 					}
 				}
 			}
 		}
-		R.Check(okBit, id, key+"bit value", P.Pos(call.Pos()), "the byte written carries bit 1 << (n % 8)", "shift by n % 8", "wrong bit inside the byte")
+		R.Check(okBit, id, key+"bit value", P.Pos(call.Pos()), "the byte written carries bit 1 << (n % 8) of the number n being written", "shift by n % 8", "wrong bit inside the byte")
 	}
 	// the complement is taken exactly when alloc is false
+	var allocParam ssa.Value
+	for _, p := range f.Params {
+		if b, ok := p.Type().Underlying().(*types.Basic); ok && b.Kind() == types.Bool {
+			allocParam = p
+		}
+	}
 	var xor *ssa.UnOp
-	for _, b := range f.Blocks {
-		for _, in := range b.Instrs {
-			if u, ok := in.(*ssa.UnOp); ok && u.Op == token.XOR {
-				xor = u
+	var xsc Scope
+	for _, sc := range scopesOf(f) {
+		for _, b := range sc.Fn.Blocks {
+			for _, in := range b.Instrs {
+				if u, ok := in.(*ssa.UnOp); ok && u.Op == token.XOR {
+					xor, xsc = u, sc
+				}
 			}
 		}
 	}
@@ -380,24 +403,30 @@ func ruleWriteBits(c *Ctx, id string) {
 		return
 	}
 	// block containing xor must be entered only on alloc==false
-	var allocParam ssa.Value
-	for _, p := range f.Params {
-		if b, ok := p.Type().Underlying().(*types.Basic); ok && b.Kind() == types.Bool {
-			allocParam = p
-		}
-	}
 	okPol := false
 	if allocParam != nil {
-		e := boolEdge(f, allocParam, false)
-		xb := xor.Block()
-		all := len(xb.Preds) > 0
-		for _, pb := range xb.Preds {
-			if !e(pb, xb) {
-				all = false
+		// the polarity flag as seen in the scope that complements
+		var flag ssa.Value
+		if xsc.Fn == f {
+			flag = allocParam
+		} else {
+			for _, p := range xsc.Fn.Params {
+				if xsc.S.resolve(p) == allocParam {
+					flag = p
+				}
 			}
 		}
-		// and the alloc==true edge must not reach the complement block first
-		okPol = all
+		if flag != nil {
+			e := boolEdge(xsc.Fn, flag, false)
+			xb := xor.Block()
+			all := len(xb.Preds) > 0
+			for _, pb := range xb.Preds {
+				if !e(pb, xb) {
+					all = false
+				}
+			}
+			okPol = all
+		}
 	}
 	R.Check(okPol, id, key+"complement iff !alloc", P.Pos(xor.Pos()), "the bit is complemented exactly on the alloc==false edge", "edge condition is !alloc", "polarity test does not select the complement on alloc==false")
 }
@@ -630,17 +659,52 @@ func ruleR6(c *Ctx, id string) {
 		return
 	}
 	R.Analysed[FuncName(do)] = true
-	begins := P.CallsIn(do, funcIs(V.Begin))
-	shr := P.CallsIn(do, funcIs(V.Shrink))
+	// the loop body may live in a private helper called from DoShrink: look in every scope
+	type site struct {
+		sc Scope
+		s  ssa.Instruction
+	}
+	var shr []site
+	for _, sc := range scopesOf(do) {
+		for _, s := range P.CallsIn(sc.Fn, funcIs(V.Shrink)) {
+			shr = append(shr, site{sc, s})
+		}
+	}
 	if len(shr) == 0 {
 		R.Fail(id, "shrinker.DoShrink|Shrink", P.Pos(do.Pos()), "DoShrink calls Inode.Shrink", "no call found")
 	}
-	for _, s := range shr {
-		mb := MustBefore(do, callTo(V.Begin))
-		R.Check(mb(s) && len(begins) > 0 && sameLoop(begins[0], s), id, "shrinker.DoShrink|Begin per iteration", P.Pos(s.Pos()), "each Shrink runs in a transaction begun in the same loop iteration", "Begin precedes Shrink inside the loop body", "Shrink does not run in its own fresh transaction")
+	// the instruction of DoShrink itself through which the site executes
+	outer := func(st site) ssa.Instruction {
+		sc := st.sc
+		in := st.s
+		for sc.Via != nil && sc.Fn != do {
+			in = sc.Via
+			found := false
+			for _, o := range scopesOf(do) {
+				if o.Fn == sc.Via.Parent() {
+					sc, found = o, true
+					break
+				}
+			}
+			if !found {
+				break
+			}
+		}
+		return in
+	}
+	for _, st := range shr {
+		g, s := st.sc.Fn, st.s
+		begins := P.CallsIn(g, funcIs(V.Begin))
+		mb := MustBefore(g, callTo(V.Begin))
+		inLoop := reachableFrom(s, s)
+		okBegin := mb(s) && len(begins) > 0 && (!inLoop || sameLoop(begins[0], s))
+		R.Check(okBegin, id, "shrinker.DoShrink|Begin per iteration", P.Pos(s.Pos()), "each Shrink runs in a transaction begun in the same loop iteration", "Begin precedes Shrink inside the loop body", "Shrink does not run in its own fresh transaction")
 		commit := P.NewAlways(callTo(V.Commit))
-		ma := MustAfter(do, commit.Instr, nil)
-		R.Check(ma(s), id, "shrinker.DoShrink|Commit after Shrink", P.Pos(s.Pos()), "every path after Shrink commits synchronously before the next iteration or return", "must-follow", "a shrink step is not committed on some path")
+		okCommit := MustAfter(g, commit.Instr, nil)(s)
+		if !okCommit && g != do {
+			okCommit = MustAfter(do, commit.Instr, nil)(outer(st))
+		}
+		R.Check(okCommit, id, "shrinker.DoShrink|Commit after Shrink", P.Pos(s.Pos()), "every path after Shrink commits synchronously before the next iteration or return", "must-follow", "a shrink step is not committed on some path")
 		// the transaction passed to Shrink is the one begun
 		okTxn := false
 		if len(begins) > 0 {
@@ -650,8 +714,37 @@ func ruleR6(c *Ctx, id string) {
 		R.Check(okTxn, id, "shrinker.DoShrink|Shrink uses the begun txn", P.Pos(s.Pos()), "Shrink is given the allocation transaction of the FsTxn begun in this iteration", "value flow", "Shrink runs on a different transaction than the one committed")
 	}
 	// the loop runs until Shrink reports that nothing is left (or the commit failed / the shrinker was told to stop)
-	for _, sc := range shr {
-		scv := sc.(*ssa.Call)
+	for _, st := range shr {
+		scv := st.s.(*ssa.Call)
+		at := outer(st)
+		// carries: v is Shrink's result, directly or as the i-th result of the helper that returns it
+		carries := func(v ssa.Value) bool {
+			if v == ssa.Value(scv) {
+				return true
+			}
+			ex, ok := v.(*ssa.Extract)
+			var hc *ssa.Call
+			idx := 0
+			if ok {
+				hc, _ = ex.Tuple.(*ssa.Call)
+				idx = ex.Index
+			} else {
+				hc, _ = v.(*ssa.Call)
+			}
+			if hc == nil || hc.Call.StaticCallee() != st.sc.Fn || st.sc.Fn == do {
+				return false
+			}
+			n := 0
+			for _, b := range st.sc.Fn.Blocks {
+				if r, ok := b.Instrs[len(b.Instrs)-1].(*ssa.Return); ok {
+					if idx >= len(r.Results) || stripConv(r.Results[idx]) != ssa.Value(scv) {
+						return false
+					}
+					n++
+				}
+			}
+			return n > 0
+		}
 		okLoop := false
 		for _, br := range branches(do) {
 			if br.Cond.Op != token.ILLEGAL {
@@ -659,16 +752,16 @@ func ruleR6(c *Ctx, id string) {
 			}
 			if phi, ok := br.Cond.X.(*ssa.Phi); ok {
 				for _, e := range phi.Edges {
-					if e == ssa.Value(scv) {
+					if carries(e) {
 						// true side stays in the loop (reaches the Shrink call again)
-						if len(br.True.Instrs) > 0 && (reachableFrom(br.True.Instrs[0], sc) || br.True == sc.Block()) {
+						if len(br.True.Instrs) > 0 && (reachableFrom(br.True.Instrs[0], at) || br.True == at.Block()) {
 							okLoop = true
 						}
 					}
 				}
 			}
 		}
-		R.Check(okLoop, id, "shrinker.DoShrink|loops while Shrink reports more", P.Pos(sc.Pos()), "the loop condition is the result of Inode.Shrink: freeing continues until the inode is no longer shrinking", "loop condition carries Shrink's result", "DoShrink stops although blocks remain to be freed: the rest of a large file is never reclaimed (until the inode number is reused)")
+		R.Check(okLoop, id, "shrinker.DoShrink|loops while Shrink reports more", P.Pos(st.s.Pos()), "the loop condition is the result of Inode.Shrink: freeing continues until the inode is no longer shrinking", "loop condition carries Shrink's result", "DoShrink stops although blocks remain to be freed: the rest of a large file is never reclaimed (until the inode number is reused)")
 	}
 	// Shrink ends with WriteInode on every path
 	wi := callTo(V.WriteInode)
